@@ -84,4 +84,25 @@ theorem parse6bitAscii_bind {β : Type} (cfg : Cfg) (bs : List UInt8) (p k : Nat
       if p + 24 ≤ 8 * bs.length then f (.text (Spec.trim (Spec.chars bs p 4)), ⟨bs, p + 24⟩) else err (.nomError .eof) :=
   parse6bitAscii_bind cfg bs p 4 f (by decide) (by decide)
 
+/-- `parse_6bit_ascii` in general: `size / 6` characters, or a failure when the no-alloc buffer
+    (20 characters) would overflow, or `Eof` when they do not fit. -/
+theorem parse6bitAscii_spec (cfg : Cfg) (bs : List UInt8) (p size : Nat) :
+    parse6bitAscii cfg ⟨bs, p⟩ size =
+      if cfg.isNoalloc && decide (maxText < size / 6) then err (.nomFailure .tooLarge)
+      else if size / 6 = 0 then ok (.text [], ⟨bs, p⟩)
+      else if p + 6 * (size / 6) ≤ 8 * bs.length then
+        ok (.text (Spec.trim (Spec.chars bs p (size / 6))), ⟨bs, p + 6 * (size / 6)⟩)
+      else err (.nomError .eof) := by
+  unfold parse6bitAscii
+  simp only [countChars_spec]
+  by_cases hc : (cfg.isNoalloc && decide (maxText < size / 6)) = true
+  · simp only [hc, if_true]
+  · simp only [hc, if_false]
+    by_cases h0 : size / 6 = 0
+    · simp only [h0, if_true, Res.ok_bind]; rfl
+    · simp only [h0, if_false]
+      by_cases h : p + 6 * (size / 6) ≤ 8 * bs.length
+      · simp only [h, if_true, Res.ok_bind, trimText_eq]
+      · simp only [h, if_false, Res.err_bind]
+
 end AisVerif
